@@ -119,7 +119,7 @@ func checkSubject(r *ev.Run, s subject) {
 }
 
 func run(r *ev.Run, cfg props.Cfg) {
-	n := cfg.Pick(5000, 100000)
+	n := cfg.Pick(20000, 300000)
 	var wg sync.WaitGroup
 	per := (n + cfg.Workers - 1) / cfg.Workers
 	for w := 0; w < cfg.Workers; w++ {
